@@ -9,6 +9,7 @@ import subprocess
 import sys
 
 import core
+from corr.bloom import strategy
 from corr.ondisk import FileTracer
 from search.common import drive, shrink_ops
 
@@ -27,13 +28,13 @@ def gen(rng):
             ops.append(("clear",))
         else:
             ops.append(("export",))
-    return {"est": est, "fpr": rng.choice([0.3, 0.1, 0.05, 0.01]), "where": rng.choice(["rel", "sub", "abs"]), "ops": ops}
+    return {"est": est, "fpr": rng.choice([0.3, 0.1, 0.05, 0.01]), "where": rng.choice(["rel", "sub", "abs"]), "ops": ops, "strat": rng.choice(["fnv", "fnv", "fnv", "md5", "custom"])}
 
 
-def _wellformed(data, est, fpr, completed_keys, count_options, what):
+def _wellformed(data, est, fpr, completed_keys, count_options, what, fn=None):
     from probables import BloomFilter
 
-    res = core.call(BloomFilter.frombytes, data)
+    res = core.call(BloomFilter.frombytes, data, hash_function=fn)
     if res[0] == "err":
         return f"{what}: the backing file does not load as a Bloom export ({res[1]})"
     b = res[1]
@@ -51,6 +52,7 @@ def check(case):
     from probables import BloomFilter, BloomFilterOnDisk
 
     cwd = os.getcwd()
+    fn = strategy(case.get("strat", "fnv"))[0]
     with core.Scratch() as tmp:
         try:
             work = os.path.join(tmp, "w")
@@ -60,10 +62,10 @@ def check(case):
             rel = {"rel": "f.blm", "sub": os.path.join("sub", "f.blm"), "abs": os.path.join(work, "f.blm")}[case["where"]]
             path = os.path.abspath(rel)
             try:
-                obj = BloomFilterOnDisk(rel, est_elements=case["est"], false_positive_rate=case["fpr"])
+                obj = BloomFilterOnDisk(rel, est_elements=case["est"], false_positive_rate=case["fpr"], hash_function=fn)
             except Exception:  # noqa: BLE001 - rejected sizing
                 return None
-            mem = BloomFilter(est_elements=case["est"], false_positive_rate=case["fpr"])
+            mem = BloomFilter(est_elements=case["est"], false_positive_rate=case["fpr"], hash_function=fn)
             done = []
             for step, op in enumerate(case["ops"]):
                 if op[0] == "add":
@@ -73,13 +75,13 @@ def check(case):
                         return f"step {step}: add raised {res[1]}"
                     for i, snap in enumerate(tr.snaps):
                         last = i == len(tr.snaps) - 1
-                        bad = _wellformed(snap, case["est"], case["fpr"], done, {len(done), len(done) + 1} if last else {len(done)}, f"step {step}, interruption point {i} of add({op[1]!r})")
+                        bad = _wellformed(snap, case["est"], case["fpr"], done, {len(done), len(done) + 1} if last else {len(done)}, f"step {step}, interruption point {i} of add({op[1]!r})", fn)
                         if bad:
                             return bad
                     done.append(op[1])
                     mem.add(op[1])
                     with open(path, "rb") as fh:
-                        bad = _wellformed(fh.read(), case["est"], case["fpr"], done, {len(done)}, f"step {step} after add")
+                        bad = _wellformed(fh.read(), case["est"], case["fpr"], done, {len(done)}, f"step {step} after add", fn)
                     if bad:
                         return bad
                     if obj.elements_added != len(done):
@@ -93,7 +95,7 @@ def check(case):
                     done = []
                     mem.clear()
                     with open(path, "rb") as fh:
-                        bad = _wellformed(fh.read(), case["est"], case["fpr"], done, {0}, f"step {step} after clear")
+                        bad = _wellformed(fh.read(), case["est"], case["fpr"], done, {0}, f"step {step} after clear", fn)
                     if bad:
                         return bad
                 elif op[0] == "export":
@@ -121,7 +123,7 @@ def check(case):
                         arg = os.path.relpath(path, work)
                     else:
                         arg = path
-                    res = core.call(BloomFilterOnDisk, arg)
+                    res = core.call(BloomFilterOnDisk, arg, hash_function=fn)
                     os.chdir(work)
                     if res[0] == "err":
                         return f"step {step}: reopening ({mode}) raised {res[1]}"
